@@ -18,7 +18,7 @@
    Statements only; proofs in Proofs/FormsGet.v and Proofs/FormsMain.v. *)
 From Coq Require Import List Bool String Ascii ZArith Arith.
 From Verif Require Import Util Ints Node GoSrc Value Outcome LC Get Cmp Loop Deq InsReset InsCopy SetEmit
-  FormsSpec Api FormsGet FormsMain Shapes GenUnits.
+  FormsSpec Api ApiSeq FormsGet FormsMain FormsSeq Shapes GenUnits.
 Import ListNotations.
 
 (* ================= the same answer in the three forms ================= *)
@@ -126,6 +126,26 @@ Theorem C12_by_value_unchanged : forall n c v, snd (exec n c (AVal v)) = AVal v.
 Proof. exact by_value_unchanged. Qed.
 Print Assumptions C12_by_value_unchanged.
 
+(* ================= histories of read operations ================= *)
+
+(* a caller makes many calls: on one object, on others, handing the same buffers from call to call
+   (Model/ApiSeq.v: a history is a list of steps, each a call on one object of a store).  In a history
+   of read calls - of any length, over any objects, in any order - every step leaves every object of
+   the store as it was and answers what the same call answers alone on the untouched store *)
+Theorem C12_read_history : forall h s, reads_only h = true ->
+  run s h = map (fun st => (alone s st, s)) h.
+Proof. exact read_history. Qed.
+Print Assumptions C12_read_history.
+
+(* hence the answers of a read history coincide whether its object is handed over by value, by
+   pointer or by pointer-to-pointer, whatever the other objects of the store are *)
+Theorem C12_read_history_forms : forall n v (rest : store) h, reads_only h = true ->
+  Forall2 (fun x y => same_opt_answer (fst x) (fst y))
+          (run ((n, AVal v) :: rest) h) (run ((n, APtr (Some v)) :: rest) h) /\
+  map fst (run ((n, APtrPtr (Some (Some v))) :: rest) h) = map fst (run ((n, APtr (Some v)) :: rest) h).
+Proof. exact history_forms. Qed.
+Print Assumptions C12_read_history_forms.
+
 (* ================= the writers reject a by-value argument ================= *)
 
 Theorem C12_by_value_rejected : forall n v,
@@ -230,6 +250,22 @@ Example C12_demo_nil_pointers :
   copy_method demo_node (APtrPtr (Some None)) = Ret None (Some EUnsupported) /\
   copyto_method demo_node (APtr (Some demo_val)) (APtr None) = Ret None (Some EUnsupported).
 Proof. vm_compute. repeat split; reflexivity. Qed.
+
+(* a history that does something: Loop over the map of one object, Loop over a slice of another
+   object, the first Loop again - the third step finds the entry the first one found *)
+Definition demo_ints : node := root_node ("Ints", TSlice (TScalar (SInt KInt32))).
+Definition demo_loop (path : list string) : call :=
+  KLoop {| wants := fun _ => true; ctls := fun _ => CNone |} (fun l => l) path.
+Example C12_demo_history :
+  let s := [(demo_node, APtr (Some demo_val)); (demo_ints, APtr (Some (VSlice false [VInt 4; VInt 6] 0)))] in
+  let entry := [ERequireKey true; ESetKey "k" "static"; ESetVal (VInt 9) "static"; EIterate CNone] in
+  map fst (run s [(0, demo_loop ["M"]); (1, demo_loop []); (0, demo_loop ["M"])]%nat) =
+  [ Some (AnsTrace (Ret entry None));
+    Some (AnsTrace (Ret [ERequireKey true; ESetKey "0" "static"; ESetVal (VPtr (Some (VInt 4))) "static"; EIterate CNone;
+                         ERequireKey true; ESetKey "1" "static"; ESetVal (VPtr (Some (VInt 6))) "static"; EIterate CNone] None));
+    Some (AnsTrace (Ret entry None)) ] /\
+  Forall (fun x => snd x = s) (run s [(0, demo_loop ["M"]); (1, demo_loop []); (0, demo_loop ["M"])]%nat).
+Proof. vm_compute. split; [reflexivity|repeat constructor]. Qed.
 
 (* the nodes the stream runs: every supported unit of the representative set has a root node *)
 Example C12_units_nonempty : negb (Nat.eqb (List.length (emit_units 0)) 0) = true.
